@@ -15,7 +15,7 @@ use truc::record::type_resolver::HostTypeResolver;
 use vtypes::Rng;
 
 use crate::hist::{Strat, STRATS};
-use crate::monitors::{config_for_alt, FRAGSETS};
+use crate::monitors::{config_extra, config_for_alt, EXTRA_FRAGSETS, FRAGSETS};
 use crate::sut::id_of;
 use crate::Args;
 
@@ -949,23 +949,26 @@ fn mode_all_fragsets(specs: &[GSpec], seed: u64, dir: &std::path::Path) {
             GReq::Add { pal, .. } => PALETTE[*pal].serde,
             _ => true,
         });
-        for fragset in 0..4 {
-            if fragset & 2 != 0 && !serde_ok {
+        for fragset in 0..7 {
+            if fragset < 4 && fragset & 2 != 0 && !serde_ok {
                 continue;
             }
             let name = format!("m{}", k);
             let alt = si % 2 == 1;
             k += 1;
-            let text = std::panic::catch_unwind(|| build_spec(spec).map(|b| generate(&b.def, &config_for_alt(fragset, alt))));
+            let fragments = if fragset < 4 { FRAGSETS[fragset] } else { EXTRA_FRAGSETS[fragset - 4] };
+            let text = std::panic::catch_unwind(|| {
+                build_spec(spec).map(|b| generate(&b.def, &if fragset < 4 { config_for_alt(fragset, alt) } else { config_extra(fragset - 4) }))
+            });
             match text {
                 Ok(Ok(text)) => {
                     write_if_changed(&dir.join("src").join(format!("{}.rs", name)), &text);
                     let _ = writeln!(main, "#[allow(dead_code, unused_imports, unused_variables, clippy::all)]\nmod {name} {{ include!(\"{name}.rs\"); }}");
-                    manifest.push(serde_json::json!({"module": name, "label": spec.label, "history": spec.text(), "fragments": FRAGSETS[fragset], "status": "emitted"}));
+                    manifest.push(serde_json::json!({"module": name, "label": spec.label, "history": spec.text(), "fragments": fragments, "status": "emitted"}));
                     emitted += 1;
                 }
-                Ok(Err(e)) => manifest.push(serde_json::json!({"module": name, "label": spec.label, "history": spec.text(), "fragments": FRAGSETS[fragset], "status": format!("builder refused: {}", e)})),
-                Err(_) => manifest.push(serde_json::json!({"module": name, "label": spec.label, "history": spec.text(), "fragments": FRAGSETS[fragset], "status": "builder or generator panicked"})),
+                Ok(Err(e)) => manifest.push(serde_json::json!({"module": name, "label": spec.label, "history": spec.text(), "fragments": fragments, "status": format!("builder refused: {}", e)})),
+                Err(_) => manifest.push(serde_json::json!({"module": name, "label": spec.label, "history": spec.text(), "fragments": fragments, "status": "builder or generator panicked"})),
             }
         }
     }
